@@ -226,14 +226,17 @@ fn macro_expand(
     segments.borrow()[0].borrow_mut().items.remove(0);
 
     // Empty segments are dropped, except the first one (continuation of segment
-    // of the caller) and the last one: it keeps the segment or the origin
-    // the body has switched to, so the caller continues there
+    // of the caller), the last one: it keeps the segment or the origin the body
+    // has switched to, so the caller continues there, and segments with origin:
+    // next segment of the same type continues after it
     let count = segments.borrow().len();
     let segments = segments
         .borrow()
         .iter()
         .enumerate()
-        .filter(|(i, x)| !x.borrow().is_empty() || *i == 0 || *i == count - 1)
+        .filter(|(i, x)| {
+            !x.borrow().is_empty() || x.borrow().address != 0 || *i == 0 || *i == count - 1
+        })
         .map(|(_, x)| x.borrow().clone())
         .collect();
 
